@@ -397,6 +397,9 @@ def check_wrappers(x, P, NFFT, kw):
 
 
 def replay(rep):
+    if rep['replay'].get('protocol') == 'values_only':
+        from props import _purity
+        return _purity.replay_protocol(rep['replay'])
     r = rep['replay']; kind = r['kind']
     x = vlib.unhexv(r['x'])
     if not r.get('complex', True):
@@ -694,3 +697,7 @@ def run(ctx):
             ctx.count('search/wrapper/' + kwtag); ctx.case(('wrapper', x.tobytes(), P, NFFT, repr(kw)), nontrivial=(P >= 3))
             for key, what in check_wrappers(x, P, NFFT, kw):
                 ctx.violation(key, what, rep('wrapper', x, P=P, NFFT=NFFT, kw=kw))
+
+    # ---------------- results depend on the VALUES given only: call protocol (repeat, aliasing, buffer reuse, memory layout, integer / single-precision dtypes)
+    from props import _purity
+    _purity.run_protocol(ctx, ['eigen_music', 'eigen_ev'])
